@@ -2,11 +2,18 @@
 Specification for C12 written from the words of the property, as forward-looking conditions on a lifecycle
 trace (no automaton state):
 
-* after `rel o` (object returned to the pool) nothing may release `o` again, and the application may not be
-  handed `o`, before `o` has been acquired again (`acq o`);
-* while the application holds `o` (`hold o` … `unhold o`: a response returned from a request call, a request
-  inside a handler, a notification inside a callback) `o` is not released/recycled;
+* after `rel o` (object returned to the pool) nothing may release `o` again, the application may not be handed
+  `o`, and the library may not read or write `o` (`use o`), before `o` has been acquired again (`acq o`);
+* after `acq o` (the pool hands `o` to an owner) the pool does not hand `o` out a second time before `o` has come
+  back to it (`rel o`): one owner at a time;
+* while the application holds `o` (`hold o` … its own `unhold o`: a response returned from a request call, a
+  request inside a handler, a notification inside a callback) `o` is not released/recycled.  Holds are counted:
+  a hold ends with the `unhold o` that brings the nesting depth of later `hold o`/`unhold o` back to its own level,
+  so every one of several simultaneous holders is protected until it is done itself;
 * a message is never written while it sits in the pool (`poisonBad`).
+
+An object that was never acquired from the pool (made by `pool.NewMessage`; the tracker sees it first through
+`hold`/`rel`) may be held, unheld and released: none of the clauses above is triggered before its first `rel`/`acq`.
 -/
 namespace CoapVerif.Spec.Ownership
 
@@ -16,30 +23,48 @@ inductive Ev
   | hold (o : Nat)       -- the application is handed o and legitimately holds it from here on
   | unhold (o : Nat)     -- the application is done with o (handler returned / it is about to release o itself)
   | poisonBad (o : Nat)  -- o was found modified when taken out of the pool: written after its release
+  | use (o : Nat)        -- the library reads or writes o (e.g. clones it for a retransmission)
   deriving Repr, DecidableEq
 
-/-- Scanning forward from just after `rel o`: no second release and no hand-out of `o` before `acq o`. -/
+/-- Scanning forward from just after `rel o`: no second release, no hand-out of `o` to the application and no
+    read/write of `o` by the library before `acq o`. -/
 def okAfterRel (o : Nat) : List Ev → Bool
   | [] => true
   | .acq o' :: r => if o' = o then true else okAfterRel o r
   | .rel o' :: r => if o' = o then false else okAfterRel o r
   | .hold o' :: r => if o' = o then false else okAfterRel o r
+  | .use o' :: r => if o' = o then false else okAfterRel o r
   | _ :: r => okAfterRel o r
 
-/-- Scanning forward from just after `hold o`: `o` is neither released nor handed out again by the pool
-    (recycled) before `unhold o`. -/
-def okWhileHeld (o : Nat) : List Ev → Bool
+/-- Scanning forward from just after `acq o`: the pool does not hand `o` out again before `o` was released. -/
+def okAfterAcq (o : Nat) : List Ev → Bool
   | [] => true
-  | .unhold o' :: r => if o' = o then true else okWhileHeld o r
-  | .rel o' :: r => if o' = o then false else okWhileHeld o r
-  | .acq o' :: r => if o' = o then false else okWhileHeld o r
-  | _ :: r => okWhileHeld o r
+  | .rel o' :: r => if o' = o then true else okAfterAcq o r
+  | .acq o' :: r => if o' = o then false else okAfterAcq o r
+  | _ :: r => okAfterAcq o r
+
+/-- Scanning forward from just after a `hold o`, `depth` further holds of `o` having begun and not ended since:
+    `o` is neither released nor handed out again by the pool (recycled) before this hold's own `unhold o`, which is
+    the `unhold o` met at depth 0. -/
+def okWhileHeld (o : Nat) (depth : Nat) : List Ev → Bool
+  | [] => true
+  | .hold o' :: r => if o' = o then okWhileHeld o (depth + 1) r else okWhileHeld o depth r
+  | .unhold o' :: r =>
+    if o' = o then
+      match depth with
+      | 0 => true
+      | d + 1 => okWhileHeld o d r
+    else okWhileHeld o depth r
+  | .rel o' :: r => if o' = o then false else okWhileHeld o depth r
+  | .acq o' :: r => if o' = o then false else okWhileHeld o depth r
+  | _ :: r => okWhileHeld o depth r
 
 /-- The property on a whole trace. -/
 def specOK : List Ev → Bool
   | [] => true
   | .rel o :: r => okAfterRel o r && specOK r
-  | .hold o :: r => okWhileHeld o r && specOK r
+  | .acq o :: r => okAfterAcq o r && specOK r
+  | .hold o :: r => okWhileHeld o 0 r && specOK r
   | .poisonBad _ :: _ => false
   | _ :: r => specOK r
 
